@@ -1312,3 +1312,121 @@ Proof.
   destruct (attempts (handle c n (n - 1) cl)) as [| a [| a' l]]; cbn in *; try lia.
   congruence.
 Qed.
+
+(* ================================================================== *)
+(* getIndex with concurrent callers                                    *)
+
+Definition is_store (p : gpc) : nat := match p with GStore => 1%nat | _ => 0%nat end.
+
+Lemma pending_upd : forall l t a b, nth_error l t = Some a ->
+  (pending (upd_nth t b l) + is_store a = pending l + is_store b)%nat.
+Proof.
+  induction l as [| x l IH]; intros [| t] a b H; cbn in H; try discriminate.
+  - injection H as ->. cbn [upd_nth]. destruct a, b; cbn; lia.
+  - cbn [upd_nth]. specialize (IH t a b H). destruct x; cbn [pending]; lia.
+Qed.
+
+Definition ret_ok (n : Z) (p : gpc) : Prop :=
+  match p with GIdle (Some r) => 0 <= r < Z.max n 1 | _ => True end.
+
+Lemma Forall_upd_nth {A} (P : A -> Prop) x : forall l t, Forall P l -> P x -> Forall P (upd_nth t x l).
+Proof.
+  induction l as [| y l IH]; intros [| t] Hl Hx; cbn; auto; inversion Hl; subst; constructor; auto.
+Qed.
+
+Definition gi_inv (n : Z) (s : gstate) : Prop :=
+  0 <= g_index s <= Z.max n 1 - 1 + Z.of_nat (pending (g_pcs s)) /\ Forall (ret_ok n) (g_pcs s).
+
+Lemma gi_init_inv n k : gi_inv n (gi_init k).
+Proof.
+  unfold gi_inv, gi_init. cbn. split.
+  - assert (pending (repeat (GIdle None) k) = 0%nat) as -> by (induction k; cbn; auto). lia.
+  - apply Forall_forall. intros p Hp. apply repeat_spec in Hp. subst p. exact I.
+Qed.
+
+Lemma gi_step_inv n s t s' : gi_inv n s -> gi_step n s t = Some s' -> gi_inv n s'.
+Proof.
+  intros [Hix Hret] Hstep. unfold gi_step in Hstep.
+  destruct (nth_error (g_pcs s) t) as [p |] eqn:Hp; [| discriminate].
+  destruct p as [last |].
+  - destruct (n >? 1) eqn:Hn; rewrite Z.gtb_ltb in Hn.
+    + apply Z.ltb_lt in Hn. destruct (g_index s + 1 <? n) eqn:Hlt.
+      * apply Z.ltb_lt in Hlt. injection Hstep as <-. unfold gi_inv. cbn. split.
+        -- pose proof (pending_upd _ t _ (GIdle (Some (g_index s + 1))) Hp) as Hc. cbn in Hc. lia.
+        -- apply Forall_upd_nth; [exact Hret |]. cbn. lia.
+      * apply Z.ltb_ge in Hlt. injection Hstep as <-. unfold gi_inv. cbn. split.
+        -- pose proof (pending_upd _ t _ GStore Hp) as Hc. cbn in Hc. lia.
+        -- apply Forall_upd_nth; [exact Hret | exact I].
+    + apply Z.ltb_ge in Hn. injection Hstep as <-. unfold gi_inv. cbn. split.
+      * pose proof (pending_upd _ t _ (GIdle (Some 0)) Hp) as Hc. cbn in Hc. lia.
+      * apply Forall_upd_nth; [exact Hret |]. cbn. lia.
+  - injection Hstep as <-. unfold gi_inv. cbn. split.
+    + pose proof (pending_upd _ t _ (GIdle (Some 0)) Hp) as Hc. cbn in Hc. lia.
+    + apply Forall_upd_nth; [exact Hret |]. cbn. lia.
+Qed.
+
+Lemma gi_run_inv n : forall sched s s', gi_inv n s -> gi_run n s sched = Some s' -> gi_inv n s'.
+Proof.
+  induction sched as [| t r IH]; intros s s' Hinv Hrun; cbn in Hrun.
+  - injection Hrun as <-. exact Hinv.
+  - destruct (gi_step n s t) as [s1 |] eqn:Hs; [| discriminate].
+    eapply IH; [eapply gi_step_inv; eauto | exact Hrun].
+Qed.
+
+(* every schedule of any number of concurrent getIndex calls: the index never goes
+   negative, exceeds n-1 by at most the number of callers that still owe their Store, every
+   value returned is a valid URL index, and once nobody is inside getIndex the index is
+   back in range — so the sequential rotation theorems apply again *)
+Lemma get_index_concurrent n k sched s :
+  1 <= n -> gi_run n (gi_init k) sched = Some s ->
+  0 <= g_index s <= n - 1 + Z.of_nat (pending (g_pcs s)) /\
+  Forall (fun p => match p with GIdle (Some r) => ix_ok n r | _ => True end) (g_pcs s) /\
+  (pending (g_pcs s) = 0%nat -> ix_ok n (g_index s)).
+Proof.
+  intros Hn Hrun. destruct (gi_run_inv n sched _ s (gi_init_inv n k) Hrun) as [Hix Hret].
+  replace (Z.max n 1) with n in * by lia. split; [exact Hix |]. split.
+  - eapply Forall_impl; [| exact Hret]. intros p Hp. destruct p as [[r |] |]; auto.
+    unfold ret_ok in Hp. replace (Z.max n 1) with n in Hp by lia. exact Hp.
+  - intros H0. rewrite H0 in Hix. unfold ix_ok. lia.
+Qed.
+
+(* a single thread running alone is the sequential get_index *)
+Lemma get_index_solo n ix last : 1 <= n -> ix_ok n ix ->
+  exists sched s, gi_run n {| g_index := ix; g_pcs := [GIdle last] |} sched = Some s /\
+                  g_index s = fst (get_index ix n) /\
+                  g_pcs s = [GIdle (Some (snd (get_index ix n)))].
+Proof.
+  intros Hn [Hlo Hhi]. unfold get_index.
+  destruct (n >? 1) eqn:Hn1; cbv zeta.
+  - destruct (ix + 1 <? n) eqn:Hlt.
+    + exists [0%nat]. unfold gi_run, gi_step. cbn [nth_error g_pcs g_index upd_nth].
+      rewrite Hn1. cbv zeta. rewrite Hlt. eexists. repeat split.
+    + exists [0%nat; 0%nat]. unfold gi_run, gi_step. cbn [nth_error g_pcs g_index upd_nth].
+      rewrite Hn1. cbv zeta. rewrite Hlt. cbn [nth_error g_pcs g_index upd_nth]. eexists. repeat split.
+  - exists [0%nat]. unfold gi_run, gi_step. cbn [nth_error g_pcs g_index upd_nth].
+    rewrite Hn1. eexists. repeat split.
+Qed.
+
+(* failover with a budget of at least n retries tries every configured server *)
+Lemma handle_failover_covers c n ix cl u :
+  on_failure c = FRotate -> 1 <= n -> ix_ok n ix -> ix_ok n u ->
+  (Z.to_nat n < nattempts (handle c n ix cl))%nat ->
+  exists j, (0 < j <= Z.to_nat n)%nat /\ nth_error (attempts (handle c n ix cl)) j = Some u.
+Proof.
+  intros Hm Hn Hix Hu Hlen.
+  destruct (handle_failover_urls c n ix cl Hm Hn Hix) as (_ & Hnth & _).
+  set (d := (u - ix) mod n).
+  assert (Hd : 0 <= d < n) by (apply Z.mod_pos_bound; lia).
+  set (j := if d =? 0 then n else d).
+  assert (Hj : 0 < j <= n) by (unfold j; destruct (d =? 0) eqn:E; [lia | apply Z.eqb_neq in E; lia]).
+  exists (Z.to_nat j). split; [lia |].
+  rewrite (Hnth (Z.to_nat j)) by lia. f_equal. rewrite Z2Nat.id by lia.
+  destruct Hu as [Hu0 Hu1].
+  unfold j. destruct (d =? 0) eqn:E.
+  - apply Z.eqb_eq in E. rewrite Z.add_mod, Z.mod_same, Z.add_0_r, Z.mod_mod by lia.
+    unfold d in E. apply Z.mod_divide in E; [| lia]. destruct E as [q Hq].
+    assert (ix = u - q * n) as -> by lia.
+    rewrite <- (Z.mod_small u n) at 2 by lia.
+    replace (u - q * n) with (u + (- q) * n) by lia. apply Z.mod_add. lia.
+  - unfold d. rewrite Zplus_mod_idemp_r. replace (ix + (u - ix)) with u by lia. apply Z.mod_small. lia.
+Qed.
